@@ -21,11 +21,11 @@ LENS6 = "0,1,252,253,65535,65536"
 
 def gensets(quick):
     if quick:
-        return [("A", dict(MAXIN=1, MAXOUT=1, MAXWIT=1, LENS=LENS6, MAXODD=3, HUGE="HugeQuick", BLOCKMAX=2), 2),
-                ("B", dict(MAXIN=2, MAXOUT=2, MAXWIT=2, LENS="1", MAXODD=0, HUGE="HugeQuick", BLOCKMAX=0), 2)]
-    return [("A", dict(MAXIN=1, MAXOUT=1, MAXWIT=1, LENS=LENS6, MAXODD=3, HUGE="HugeAll", BLOCKMAX=3), 4),
-            ("B", dict(MAXIN=2, MAXOUT=2, MAXWIT=2, LENS=LENS6, MAXODD=1, HUGE="HugeAll", BLOCKMAX=0), 8),
-            ("C", dict(MAXIN=2, MAXOUT=1, MAXWIT=2, LENS="0,1,253", MAXODD=2, HUGE="HugeQuick", BLOCKMAX=0), 4)]
+        return [("A", dict(MAXIN=1, MAXOUT=1, MAXWIT=1, LENS=LENS6, MAXODD=3, HUGE="HugeQuick", BLOCKMAX=2, BIGCOUNTS="8,40,300"), 2),
+                ("B", dict(MAXIN=2, MAXOUT=2, MAXWIT=2, LENS="1", MAXODD=0, HUGE="HugeQuick", BLOCKMAX=0, BIGCOUNTS=""), 2)]
+    return [("A", dict(MAXIN=1, MAXOUT=1, MAXWIT=1, LENS=LENS6, MAXODD=3, HUGE="HugeAll", BLOCKMAX=3, BIGCOUNTS="8,17,40,300,1000"), 4),
+            ("B", dict(MAXIN=2, MAXOUT=2, MAXWIT=2, LENS=LENS6, MAXODD=1, HUGE="HugeAll", BLOCKMAX=0, BIGCOUNTS=""), 8),
+            ("C", dict(MAXIN=2, MAXOUT=1, MAXWIT=2, LENS="0,1,253", MAXODD=2, HUGE="HugeQuick", BLOCKMAX=0, BIGCOUNTS=""), 4)]
 
 
 def tlc(ctx, *a, **kw):
@@ -131,7 +131,7 @@ def run(ctx):
         r.require_ok("mc " + tag)
         states += r.distinct
     r = tlc(ctx, "Wire", "Wire_mc", defines=dict(MAXIN=1, MAXOUT=1, MAXWIT=1, LENS="0,1,253", MAXODD=3, HUGE="HugeQuick", BLOCKMAX=1,
-                                                LENIENT="TRUE"), timeout=900)
+                                                BIGCOUNTS="", LENIENT="TRUE"), timeout=900)
     if not r.invariant:
         raise Infra("sanity: the lenient reader (non-minimal CompactSize, superfluous witness accepted) should violate an invariant")
     ctx.cov["refuted_variant"] = "Lenient=TRUE violates " + r.invariant
@@ -212,10 +212,11 @@ def run(ctx):
         "exhaustive_over_structure_within_bounds": True,
         "rule": "TLC enumerates every (shape, perturbation) of spec/Wire.tla under the constants of checks/c09.py "
                 "(shapes up to 2 inputs x 2 outputs x 2 witness items, length classes 0/1/252/253/65535/65536, blocks of up to "
-                "%d transactions; truncations at and inside every field, every non-minimal CompactSize form, counts -1/+1/huge, "
+                "%d transactions of every pool combination plus long blocks of 8..%d transactions in four patterns (small, mixed, "
+                "3-9 kB transactions) whose bytes cross lib/btc's 4096-byte hashing packs never / once / many times; truncations at and inside every field, every non-minimal CompactSize form, counts -1/+1/huge, "
                 "flag bytes 0/2/3, trailing bytes); each case is concretised (seeded random content) and run on lib/btc; "
                 "plus seeded truncations / single-byte / byte+truncation mutations of valid encodings judged by the reference decoder; "
-                "distinct_nontrivial counts distinct non-empty byte strings given to the decoders" % (2 if quick else 3)})
+                "distinct_nontrivial counts distinct non-empty byte strings given to the decoders" % ((2, 300) if quick else (3, 1000))})
     ctx.assumptions += [
         "content of opaque fields (hashes, scripts, values, witness items) is pseudo-random per seed: exhaustive over structure, sampled over content",
         "layouts whose reading depends on opaque content (verdict 'dep', e.g. a count lowered by one) are judged by the harness' reference decoder, "
